@@ -23,7 +23,7 @@ pub struct Scn {
     pub query_tasks: usize,
     pub queries_per_task: usize,
     pub strategy: String,
-    /// per query task, per query: (kind 0..5, tcp, signed_with_generation or -1)
+    /// per query task, per query: (kind 0..5 [+8 = signed with a stale time], tcp, signed_with_generation or -1)
     pub plan: Vec<Vec<(u8, bool, i32)>>,
     /// the swapper sets keys before (true) or after (false) the catalog
     pub keys_first: bool,
@@ -124,7 +124,10 @@ impl Prop for C32 {
                         if signed == 3 {
                             signed = 2;
                         }
-                        (r.below(6) as u8, r.below(4) == 0, signed)
+                        // a quarter of the signed requests carry a stale time: the BADTIME response must be
+                        // signed with the key that authenticated the request
+                        let stale = if signed >= 0 && r.below(4) == 0 { 8 } else { 0 };
+                        (r.below(6) as u8 + stale, r.below(4) == 0, signed)
                     })
                     .collect()
             })
@@ -202,7 +205,7 @@ impl Prop for C32 {
         "E1 simrt-threads"
     }
     fn expected_probes() -> Vec<&'static str> {
-        vec!["c32_response_during_swap_window", "c32_signed_ok", "c32_signed_badsig", "c32_signed_badkey", "c32_old_generation_served_in_window"]
+        vec!["c32_response_during_swap_window", "c32_signed_ok", "c32_signed_badsig", "c32_signed_badkey", "c32_signed_badtime", "c32_old_generation_served_in_window"]
     }
 }
 
@@ -247,7 +250,8 @@ fn run(scn: &Scn) {
         hs.push(shuttle::thread::spawn(move || {
             let mut buf = vec![0u8; 65535];
             for (i, (kind, tcp, signed)) in plan.iter().enumerate() {
-                let (qn, qt) = match kind {
+                let stale = kind & 8 != 0;
+                let (qn, qt) = match kind & 7 {
                     0 => ("gen.test.", wire::T_MX),
                     1 => ("deep.sub.gen.test.", wire::T_A),
                     2 => ("nosuch.gen.test.", wire::T_TXT),
@@ -264,7 +268,7 @@ fn run(scn: &Scn) {
                         alg: sign_alg,
                         alg_name: sign_alg.name(),
                         secret: secret(*signed as usize),
-                        time: simrt::time::wall_secs(),
+                        time: simrt::time::wall_secs() - if stale { 100_000 } else { 0 },
                         fudge: 300,
                         mac_len: None,
                     };
@@ -313,6 +317,7 @@ fn run(scn: &Scn) {
                             None => "badkey",
                             Some(a) if a != sign_alg => "badkey",
                             Some(_) if h != j => "badsig",
+                            Some(_) if stale => "badtime",
                             Some(_) => "ok",
                         }
                     };
@@ -320,6 +325,8 @@ fn run(scn: &Scn) {
                         "badkey"
                     } else if m.rcode() == 9 && tf.error == 16 {
                         "badsig"
+                    } else if m.rcode() == 9 && tf.error == 18 {
+                        "badtime"
                     } else if tf.error == 0 {
                         "ok"
                     } else {
@@ -332,6 +339,19 @@ fn run(scn: &Scn) {
                             format!("task {t} query {i}: request signed with generation {j} ({sign_alg:?}) got '{observed}', but key generations in the window [{klo},{khi}] give {:?}", (klo..=khi).map(outcome).collect::<Vec<_>>()),
                         );
                         return;
+                    }
+                    if observed == "badtime" {
+                        // signed with the very key that verified the request
+                        if let Err(e) = tsigref::verify_response(resp, &req_mac, sign_alg, &secret(j)) {
+                            viol("mixed-key-snapshots", format!("task {t} query {i}: BADTIME response to a request authenticated under key generation {j} does not verify under that key: {e}"));
+                            return;
+                        }
+                        if !m.answers.is_empty() || !m.authority.is_empty() {
+                            viol("answer-data-with-tsig-error", "BADTIME response carries answer data".into());
+                            return;
+                        }
+                        simrt::probe("c32_signed_badtime");
+                        continue;
                     }
                     if observed != "ok" {
                         if !tf.mac.is_empty() {
